@@ -42,6 +42,8 @@ def _program(draw, solvable):
 def _case(draw):
     B = draw(_program(True))
     optsB = draw(gen.solve_options(solvers=("CLARABEL",), allow_drh=True))
+    if draw(st.integers(0, 3)) == 0:
+        optsB["solver"] = None          # B relies on the default solver: an explicit choice made by an earlier solve must not stick
     k = draw(st.integers(0, 4))
     hist = []
     for _ in range(k):
